@@ -520,6 +520,53 @@ def run_reset(ck: Check):
         ck.count("update_extra_keyword_cases")
         if not ok_kw:
             ck.violation(dict(clause="non-interference", scenario="update-with-extra-keyword", detector=nm), dict(what="update(value=..., sample_id=...) works on the bare detector but, with a history callback attached, raises or records something else than one entry per update", detector=nm, error=err))
+    # (a) an update() that RAISES in mid-stream (a value the detector rejects; the caller catches it and carries on): the history
+    #     keeps one entry per ACCEPTED update in every tracked variable - no list runs ahead of the others;
+    # (b) two callbacks with the SAME name in one list: both stay attached - both histories record, and of two reset callbacks
+    #     the one whose alpha is reached fires (deterministic)
+    for mk, nm in ((lambda cb: _DDM2(callbacks=cb), "DDM"), (lambda cb: _CU2(callbacks=cb), "CUSUM")):
+        try:
+            h = _H2(name="h")
+            d = mk([h])
+            accepted, counters = [], []
+            for v in (0, 1, "not a number", 1, None, 0, 1):
+                try:
+                    d.update(value=v)
+                    accepted.append(v)
+                    counters.append(int(d.num_instances))   # whatever the detector's own counter says after this update
+                except Exception:  # noqa: BLE001  (the rejection itself is not the point here)
+                    pass
+            lens = {k: len(x) for k, x in h.history.items()}
+            ok_rej = len(set(lens.values())) == 1 and [scalar(x) for x in h.history["value"]] == [scalar(v) for v in accepted] and [int(x) for x in h.history["num_instances"]] == counters
+            err = None
+        except Exception as e:  # noqa: BLE001
+            ok_rej, err, lens = False, repr(e), None
+        ck.case(dict(kind="rejected-update-in-mid-stream", detector=nm), nontrivial=True, key=repr(("rej-upd", nm)))
+        ck.count("rejected_update_cases")
+        if not ok_rej:
+            ck.violation(dict(clause="one-entry-per-update", scenario="rejected-update", detector=nm), dict(what="after an update() that raised in mid-stream the history no longer holds one entry per accepted update in every tracked variable", detector=nm, lengths=lens, error=err))
+    try:
+        h1, h2 = _H2(name="same"), _H2(name="same")
+        d = _DDM2(callbacks=[h1, h2])
+        for v in (0, 1, 1, 0):
+            d.update(value=v)
+        ok_same_h = len(h1.history["value"]) == 4 and len(h2.history["value"]) == 4
+        ref, x = np.arange(30, dtype=float), np.arange(30, dtype=float) + 3.0
+        twin = KSTest()
+        twin.fit(X=ref)
+        p_ = float(twin.compare(X=x)[0].p_value)
+        dk = KSTest(callbacks=[ResetStatisticalTest(alpha=0.999), ResetStatisticalTest(alpha=1e-300)])
+        dk.fit(X=ref)
+        dk.compare(X=x)
+        ok_same_r = (dk.X_ref is None) == (p_ <= 0.999)
+        err = None
+    except Exception as e:  # noqa: BLE001
+        ok_same_h = ok_same_r = False
+        err = repr(e)
+    ck.case(dict(kind="same-named-callbacks"), nontrivial=True, key=repr(("same-name",)))
+    ck.count("same_named_callback_cases")
+    if not (ok_same_h and ok_same_r):
+        ck.violation(dict(clause="callbacks-attached", scenario="same-named-callbacks"), dict(what="of two callbacks with the same name in one list only one stays attached (a history that records nothing / a reset callback that does not fire at p <= alpha)", histories_ok=ok_same_h, reset_ok=ok_same_r, error=err))
     res = coq_eval("C17r", HDR17, exprs, shard=60)
     for (name, alpha, ops, cur, outs), r in zip(cases, res):
         ck.corr_cases += 1
